@@ -139,6 +139,65 @@ fn main() {}
 """ % (unit.upper(), module, struct, (opt + "\nimpl serde::SerView for Options { open spec fn ser_view(&self) -> SerTree { ser_of(*self) } }") if opt else "", ref, table, struct, ent, struct, struct, module, struct, struct, struct,
        " else ".join("if n == %d { Ident::%s }" % (n, f) for (f, n, k, t) in fields) + " else { Ident::Unknown }",
        "".join("// member `%s` is decoded through a `deserialize_with` function: the wrapper the macro declares inside visit_map (rule R37)\npub struct __DeserializeWith<'de> { pub value: %s, pub lifetime: &'de () }\n" % (f, t) for ((u2, f), t) in WITH.items() if u2 == unit))
+    # round-trip lemma: case split over the optional members that are present
+    def rt_val(f, k, t):
+        if (unit, f) in WITH:
+            return None
+        if k == "r" or k == "d":
+            return "member::<%s>(e, n, Ident::%s) == Some(q.%s)" % (t, f, f)
+        return "q.%s == (match member::<%s>(e, n, Ident::%s) { Some(x) => x, None => <%s as VxDefault>::vx_default() })" % (f, t, f, t)
+    concl = "\n        &&& ".join(x for x in [rt_val(f, k, t) for (f, n, k, t) in fields] if x)
+    opts = [(f, n) for (f, n, k, t) in fields if k == "o"]
+    def cases(i, present, ind):
+        pad = "    " * ind
+        if i == len(opts):
+            ents = [(f, n) for (f, n, k, t) in fields if k != "o" or f in present]
+            out = pad + "assert(ctap_entries(q).len() == %d);\n" % len(ents)
+            for j, (f, n) in enumerate(ents):
+                out += pad + "assert(e[%d] == (DeKey::U(%d), ser_leaf(q.%s)));\n" % (j, n, f)
+            return out
+        f, n = opts[i]
+        return (pad + "if q.%s is Some {\n" % f + cases(i + 1, present | {f}, ind + 1) + pad + "} else {\n" + cases(i + 1, present, ind + 1) + pad + "}\n")
+    concl_block = """({ let e = wire_of(ctap_entries(q)); let n = e.len() as int;
+        &&& dup_free(e, n)
+        &&& %s
+    })""" % concl
+    body_head = """    broadcast use axiom_member_round_trip;
+    reveal_with_fuel(occ, %d);
+    reveal_with_fuel(dup_free, %d);
+    let e = wire_of(ctap_entries(q));
+    assert(e.len() == ctap_entries(q).len());
+""" % (len(fields) + 2, len(fields) + 2)
+    nsplit = max(0, len(opts) - 4)   # at most 16 cases per proof function
+    helpers = ""
+    def dispatch(i, present, ind):
+        pad = "    " * ind
+        if i == nsplit:
+            name = "lemma_round_trip_%s" % "".join("1" if opts[j][0] in present else "0" for j in range(nsplit))
+            return pad + name + "(q);\n"
+        f, n = opts[i]
+        return pad + "if q.%s is Some {\n" % f + dispatch(i + 1, present | {f}, ind + 1) + pad + "} else {\n" + dispatch(i + 1, present, ind + 1) + pad + "}\n"
+    if nsplit:
+        import itertools
+        for bits in itertools.product([True, False], repeat=nsplit):
+            present = frozenset(opts[j][0] for j in range(nsplit) if bits[j])
+            req = " && ".join("q.%s is %s" % (opts[j][0], "Some" if bits[j] else "None") for j in range(nsplit))
+            name = "lemma_round_trip_%s" % "".join("1" if b else "0" for b in bits)
+            helpers += "proof fn %s(q: %s)\n    requires %s\n    ensures %s\n{\n%s%s}\n" % (name, struct, req, concl_block, body_head, cases(nsplit, present, 1))
+        main_body = dispatch(0, frozenset(), 1)
+    else:
+        main_body = body_head + cases(0, frozenset(), 1)
+    lemma = """
+// ---- C13 "deserialising those bytes yields an equal message": what `serialize` writes for q, presented on input (`wire_of`), has no
+// duplicates, has every required member, and each member's entry decodes to q's member (an absent optional member is absent and q's
+// member is its default, None).  With `visit_map`'s contract: a sound input of that shape is accepted and the message read equals q.
+// (proved by cases over which optional members are present)
+%spub proof fn lemma_round_trip(q: %s)
+    ensures %s
+{
+%s}
+""" % (helpers, struct, concl_block, main_body)
+    u = u.replace("} // verus!\nfn main() {}", lemma + "} // verus!\nfn main() {}")
     open(os.path.join(d, "unit.rs"), "w").write(u)
     c = """# Contracts for unit V-%s, from the statement of C13: the message serialises to a map whose top-level keys are the integers
 # the CTAP specification assigns to its members, in ascending order, with absent optional members omitted.
